@@ -10,7 +10,9 @@ import Exetera.Gen.Constants
   * `datetime` values are `Int` seconds since `datetime.min` = 0001-01-01T00:00:00 (so the representable range is
     `0 … DT_MAX`); `timedelta(days=x)`/`timedelta(weeks=x)` is `x·86400` / `x·7·86400` seconds and raises `OverflowError`
     when it is longer than 999999999 days;
-  * an `int8`/`bool` filter is the list of its element values; `astype(bool)` is `· != 0`;
+  * an `int8`/`bool` filter is the list of its element values; `astype(bool)` is `· != 0`; a filter / `in_range` array whose
+    length differs from the row count is an error (`ValueError` from `&`, `IndexError` from mask indexing) — numpy's
+    broadcasting of length-1 arrays and its acceptance of an empty mask are not modelled (never generated);
   * numpy indexing: boolean-mask selection (`maskSel`), integer fancy indexing with negative wrap-around (`fancyGet`), Python
     slice assignment (`sliceAssign`), each with its error point.
 -/
